@@ -110,6 +110,19 @@ MUTATIONS = [
             "Only smooth and decomposable circuits can be efficiently differentiated."
         )
     if order <= 0:
+""", new="""    if not (sc.is_smooth and sc.is_decomposable):
+        raise StructuralPropertyError(
+            "Only smooth and decomposable circuits can be efficiently differentiated."
+        )
+    if order < 1:
+""", expect={}),
+    # the same rewrite with the order check moved first was classified as behaviour-preserving until the R8 precedence
+    # clause: for a non-smooth circuit *and* order 0 the refusal is then a ValueError, not the promised StructuralPropertyError
+    dict(id="r8-differentiate-order-check-first", file=FUN, old="""    if not sc.is_smooth or not sc.is_decomposable:
+        raise StructuralPropertyError(
+            "Only smooth and decomposable circuits can be efficiently differentiated."
+        )
+    if order <= 0:
 """, new="""    if order <= 0:
         raise ValueError("The order of differentiation must be positive.")
     if not (sc.is_smooth and sc.is_decomposable):
@@ -117,7 +130,7 @@ MUTATIONS = [
             "Only smooth and decomposable circuits can be efficiently differentiated."
         )
     if order < 1:
-""", expect={}),
+""", expect={"C05": ["R8:cirkit.symbolic.functional.differentiate:non-"], "C09": ["R8:cirkit.symbolic.functional.differentiate:non-"]}),
     dict(id="q-exit-reset-first", quiet=True, file=PIPE, old="""        self._op_registry.__exit__(__exc_type, __exc_value, __traceback)
         assert self._token is not None
         _PIPELINE_CONTEXT.reset(self._token)
@@ -221,7 +234,7 @@ MUTATIONS += [
     # R4a: parameter operators
     dict(id="r4a-outer-unsqueeze", file=TNODES, old="        x2 = x2.unsqueeze(self.dim + 1)  # (F, K1, K2, ..., 1, Ki2, ...., Kn)", new="        x2 = x2.unsqueeze(self.dim + 2)  # (F, K1, K2, ..., 1, Ki2, ...., Kn)", expect={"C14": ["R4a:cirkit.backend.torch.parameters.nodes.TorchOuterProductParameter:forward"]}, allow_others=True),
     dict(id="r4a-mixing-permute", file=TNODES, old="        return diag_weights.permute(0, 2, 1, 3).flatten(start_dim=2)", new="        return diag_weights.permute(0, 2, 1, 3).flatten(start_dim=1)", expect={"C14": ["R4a:cirkit.backend.torch.parameters.nodes.TorchMixingWeightParameter:forward"]}, allow_others=True),
-    dict(id="r4a-gauss-mean-view", file=TNODES, old="        return mean.view(-1, *self.shape)  # (F, K1 * K2, C)", new="        return mean  # (F, K1 * K2, C)", expect={"C14": ["R4a:cirkit.backend.torch.parameters.nodes.TorchGaussianProductMean:forward"]}),
+    dict(id="r4a-gauss-mean-view", file=TNODES, old="        return mean.view(-1, *self.shape)  # (F, K1 * K2, C)", new="        return mean  # (F, K1 * K2, C)", expect={"C04": ["R4"], "C14": ["R4a:cirkit.backend.torch.parameters.nodes.TorchGaussianProductMean:forward"]}),
     # R4p / R4r
     dict(id="r4p-reduce-axis-dropped", file=RPAR, old="    return TorchReduceLSEParameter(in_shape, dim=p.axis)", new="    return TorchReduceLSEParameter(in_shape, dim=p.axis - 1)", expect={"C14": ["R4p:cirkit.backend.torch.rules.parameters.compile_reduce_lse_parameter"]}, allow_others=True),
     dict(id="r4r-poly-degree", file=OPS, old="        degree=sl1.degree + sl2.degree,", new="        degree=sl1.degree + sl2.degree + 1,", expect={"C04": ["R4r:cirkit.symbolic.operators.multiply_polynomial_layers"]}),
@@ -253,9 +266,9 @@ MUTATIONS += [
     dict(id="q-pointer-attr-renamed", file=TNODES, old="        super().__init__(num_folds=num_folds)\n        self._parameter = parameter\n        self._fold_idx: Tensor", new="        super().__init__(num_folds=num_folds)\n        p = parameter\n        self._parameter = parameter\n        del p\n        self._fold_idx: Tensor", expect={}, quiet=True),
     dict(id="q-kron-sample-negative-axes", file=TINNER, old="            y0 = y0.unsqueeze(dim=2)  # (F, K, 1, num_samples, D)", new="            y0 = y0.unsqueeze(dim=-3)  # (F, K, 1, num_samples, D)", expect={}, quiet=True),
     # ---- layout typing (shape-preserving, value-changing edits)
-    dict(id="r4l-outersum-operand-order", file=TNODES, old="        x1 = x1.unsqueeze(self.dim + 2)  # (F, d1, d2, ..., dk1, 1, ..., dn)\n        x2 = x2.unsqueeze(self.dim + 1)  # (F, d1, d2, ..., 1, dk1, ...., dn)", new="        x1 = x1.unsqueeze(self.dim + 1)  # (F, d1, d2, ..., dk1, 1, ..., dn)\n        x2 = x2.unsqueeze(self.dim + 2)  # (F, d1, d2, ..., 1, dk1, ...., dn)", expect={"C14": ["R4l:cirkit.backend.torch.parameters.nodes.TorchOuterSumParameter:layout"]}),
+    dict(id="r4l-outersum-operand-order", file=TNODES, old="        x1 = x1.unsqueeze(self.dim + 2)  # (F, d1, d2, ..., dk1, 1, ..., dn)\n        x2 = x2.unsqueeze(self.dim + 1)  # (F, d1, d2, ..., 1, dk1, ...., dn)", new="        x1 = x1.unsqueeze(self.dim + 1)  # (F, d1, d2, ..., dk1, 1, ..., dn)\n        x2 = x2.unsqueeze(self.dim + 2)  # (F, d1, d2, ..., 1, dk1, ...., dn)", expect={"C04": ["R4"], "C14": ["R4l:cirkit.backend.torch.parameters.nodes.TorchOuterSumParameter:layout"]}),
     dict(id="r4l-mixing-columns", file=TNODES, old="        return diag_weights.permute(0, 2, 1, 3).flatten(start_dim=2)", new="        return diag_weights.permute(0, 2, 3, 1).flatten(start_dim=2)", expect={"C12": ["R4l:"], "C14": ["R4l:cirkit.backend.torch.parameters.nodes.TorchMixingWeightParameter:layout"]}),
-    dict(id="r4l-gauss-stddev-order", file=TNODES, old="        inv_var1 = torch.reciprocal(var1).unsqueeze(dim=2)  # (F, K1, 1, C)\n        inv_var2 = torch.reciprocal(var2).unsqueeze(dim=1)  # (F, 1, K2, C)", new="        inv_var1 = torch.reciprocal(var1).unsqueeze(dim=1)  # (F, K1, 1, C)\n        inv_var2 = torch.reciprocal(var2).unsqueeze(dim=2)  # (F, 1, K2, C)", expect={"C14": ["R4l:cirkit.backend.torch.parameters.nodes.TorchGaussianProductStddev:layout"]}),
+    dict(id="r4l-gauss-stddev-order", file=TNODES, old="        inv_var1 = torch.reciprocal(var1).unsqueeze(dim=2)  # (F, K1, 1, C)\n        inv_var2 = torch.reciprocal(var2).unsqueeze(dim=1)  # (F, 1, K2, C)", new="        inv_var1 = torch.reciprocal(var1).unsqueeze(dim=1)  # (F, K1, 1, C)\n        inv_var2 = torch.reciprocal(var2).unsqueeze(dim=2)  # (F, 1, K2, C)", expect={"C04": ["R4"], "C14": ["R4l:cirkit.backend.torch.parameters.nodes.TorchGaussianProductStddev:layout"]}),
     dict(id="r4l-kron-forward-order", file=TINNER, old="            y0 = y0.unsqueeze(dim=-1)  # (F, B, K, 1).\n            y1 = x[:, i].unsqueeze(dim=-2)  # (F, B, 1, Ki).", new="            y0 = y0.unsqueeze(dim=-2)  # (F, B, K, 1).\n            y1 = x[:, i].unsqueeze(dim=-1)  # (F, B, 1, Ki).", expect={"C01": ["R4l:cirkit.backend.torch.layers.inner.TorchKroneckerLayer:layout"]}, allow_others=True),
     dict(id="r4l-sum-flatten-order", file=TINNER, old="        x = x.permute(0, 2, 1, 3).flatten(start_dim=2)\n        weight = self.weight()\n        return self.semiring.einsum(\n            \"fbi,foi->fbo\"", new="        x = x.permute(0, 2, 3, 1).flatten(start_dim=2)\n        weight = self.weight()\n        return self.semiring.einsum(\n            \"fbi,foi->fbo\"", expect={"C01": ["R4l:cirkit.backend.torch.layers.inner.TorchSumLayer:layout"]}, allow_others=True),
     dict(id="r12b-tucker-pairing", file=TOPT, old="            tuple((0, 1, i + 2) for i in range(arity))", new="            tuple((0, 1, arity + 1 - i) for i in range(arity))", expect={"C02": ["R12b:cirkit.backend.torch.optimization.layers.apply_tucker"], "C01": ["R12b:cirkit.backend.torch.optimization.layers.apply_tucker"]}),
